@@ -144,7 +144,17 @@ func Exec(in *Input, tmpDir string) *Obs {
 			o.guard(fmt.Sprintf("ValidateContext/%d", pur), func() {
 				hf, _ := crl.NewHTTPFetcher(net.Client())
 				if in.Cache {
-					hf.Cache = sims.NewCache()
+					cache := sims.NewCache()
+					switch in.CacheFault {
+					case "get":
+						cache.GetErr = -1 // an unreadable cache: every lookup fails (not a miss)
+					case "set":
+						cache.SetErr = -1
+					case "get-once":
+						cache.GetErr = 1
+					}
+					hf.Cache = cache
+					hf.DiscardCacheError = in.Discard
 				}
 				v, err := revocation.NewWithOptions(revocation.Options{OCSPHTTPClient: net.Client(), CRLFetcher: hf, CertChainPurpose: pur})
 				if err != nil {
